@@ -42,6 +42,12 @@ def generate(rng, tier):
              "/e*/hostname", "/etc/*/../hostname", "/nonexistent", "/etc/hostname/", "*", "", "/", "/*", "/etc/host[n", "/etc/host?ame", "/etc/{a,b}"]
     RXWORDS = ["regex:default", "regex:invert", "regex:noop", "regex:verbose", "regex:", "regex:Invert", "regex:,", "regex:default,invert",
                "regex:bogus,invert", "regex", "regexp:default", "regex:default:x", "x"]
+    # valid queries with hostile numbers in the clauses the parser accepts as integers; the aggregation really starts
+    # (a read command follows), so whatever the number reaches at run time is exercised
+    for num in ["0", "-1", "-5", "1", "00", "-0", "2147483648", "9223372036854775807", "-9223372036854775808", "3600"]:
+        for clause in ["interval", "limit"]:
+            q = "map select count($line) from . group by $hostname %s %s logformat generickv" % (clause, num)
+            cases.append({"payloads": [q.encode().hex(), b"cat: /etc/hostname regex:noop ".hex()], "wait_ms": 900})
     n = 900 if tier == "quick" else 20000
     for i in range(n):
         k = rng.random()
